@@ -116,6 +116,11 @@ class DiskProp(object):
 
     # -- generation -----------------------------------------------------------------------
     def generate(self, rng, tier, i):
+        case = self.generate_case(rng, tier, i)
+        case["pyopt"] = 1 if rng.chance(0.15) else 0
+        return case
+
+    def generate_case(self, rng, tier, i):
         judge = self.judge
         if judge == "C15":
             profile = rng.weighted([("medium_full", 7), ("mixed", 3)])
@@ -136,7 +141,8 @@ class DiskProp(object):
 
         def peer_save():
             return {"op": "peer_save", "file": fd(), "policy": rng.choice(RD.POLICIES), "pseed": rng.below(1 << 16),
-                    "convention": rng.choice(["decb", "tool"])}
+                    "convention": rng.choice(["decb", "tool"]),
+                    "slot": rng.choice([None] * 6 + [71, 70, 68, rng.below(72)])}     # directory slots anywhere, up to the last one
 
         if profile == "tool_only":
             if rng.chance(0.15):
@@ -144,8 +150,8 @@ class DiskProp(object):
                 ops.append({"op": "tool_new_disk"})
             for _ in range(rng.weighted([(1, 2), (2, 4), (3, 4), (4, 2), (6, 1), (8, 1)])):
                 ops.append({"op": "tool_add", "file": fd()})
-                if rng.chance(0.25):
-                    ops.append({"op": rng.choice(["restart", "live_list"])})
+                if rng.chance(0.3):
+                    ops.append({"op": rng.choice(["restart", "live_list", "lookup"])})
         elif profile == "peer_only":
             for _ in range(rng.randint(1, 6)):
                 ops.append(peer_save())
@@ -154,7 +160,7 @@ class DiskProp(object):
             ops.append({"op": rng.choice(["restart", "cli_list"])})
         elif profile == "mixed":
             n = rng.weighted([(2, 2), (3, 4), (4, 4), (6, 3), (9, 1)])
-            weights = [("tool_add", 5), ("peer_save", 4), ("peer_kill", 2), ("restart", 2), ("cli_list", 1), ("cli_append", 1), ("live_list", 1)]
+            weights = [("tool_add", 5), ("peer_save", 4), ("peer_kill", 2), ("restart", 2), ("cli_list", 1), ("cli_append", 1), ("live_list", 1), ("lookup", 1)]
             weights = [(k, w) for k, w in weights if rng.chance(0.85)] or [("tool_add", 1)]
             for _ in range(n):
                 kind = rng.weighted(weights)
@@ -209,6 +215,8 @@ class DiskProp(object):
                 count += 1
                 if rng.chance(0.05):
                     ops.append({"op": "restart"})
+                if rng.chance(0.06):
+                    ops.append({"op": "lookup"})
                 if rng.chance(0.04):
                     ops.append({"op": "peer_kill", "index": rng.below(12)})
                     budget_gran += 1
@@ -217,7 +225,9 @@ class DiskProp(object):
     # -- execution ------------------------------------------------------------------------
     def run(self, case):
         res = Result()
-        w = World()
+        w = World(optimize=int(case.get("pyopt", 0)))      # interpreter configuration of this run's process (python / python -O)
+        if case.get("pyopt"):
+            res.stats["fault:python_minus_O_processes"] += 1
         mods = w.mods
         DiskFile = mods["disk"].DiskFile
         DiskConstants = mods["disk"].DiskConstants
@@ -263,7 +273,9 @@ class DiskProp(object):
                     last_file = materialise(op["file"])
                     img = bytearray(st["img"])
                     try:
-                        slot = RD.save(img, last_file, op["policy"], op["pseed"], op["convention"])
+                        slot = RD.save(img, last_file, op["policy"], op["pseed"], op["convention"], want_slot=op.get("slot"))
+                        if slot >= 68:
+                            res.stats["probe:peer_file_in_one_of_the_last_four_directory_slots"] += 1
                         st["img"] = bytes(img)
                         st["model"][slot] = last_file
                         outcome = "peer_saved"
@@ -310,6 +322,28 @@ class DiskProp(object):
                         res.stats["probe:second_new_disk_in_same_process_is_blank"] += 1
                     st["img"], st["cont"], st["model"], st["tool_only"], st["baseline"] = img, fresh, {}, True, None
                     outcome = "new"
+                elif kind == "lookup":
+                    # the read-only public queries of the container, between additions: they must leave the image alone
+                    cont = container()
+                    before_img = bytes(bytearray(cont.get_buffer()))
+
+                    def queries():
+                        out = [cont.find_empty_directory_entry()]
+                        try:
+                            out.append(cont.find_empty_granule())
+                        except Exception as e:       # 'no free granules' on a full disk is an answer too
+                            out.append(type(e).__name__)
+                        out.append([cont.granule_in_use(g) for g in (0, 27, 33, 34, 67)])
+                        out.append([cont.directory_entry_in_use(e) for e in (0, 1, 71)])
+                        return out
+                    _, err = w.call(queries)
+                    if err is not None:
+                        res.violate("LOOKUP-ERROR:" + type(err).__name__, "a read-only query raised %s: %s" % (type(err).__name__, str(err)[:100]), k)
+                    elif bytes(bytearray(cont.get_buffer())) != before_img:
+                        diff = next(i for i, (a, b) in enumerate(zip(before_img, bytes(bytearray(cont.get_buffer())))) if a != b)
+                        res.violate("LOOKUP-MODIFIED-IMAGE", "a read-only query changed the image (first difference at offset %d)" % diff, k)
+                    else:
+                        res.stats["probe:queries_left_image_unchanged"] += 1
                 elif kind == "live_list":
                     # list on the live container object (no restart), then keep writing to the same object
                     cont = container()
